@@ -75,6 +75,24 @@ class Ctx:
             return self.ok(f, node, construct, ok_detail, rule)
         return self.violated(f, node, construct, bad_detail or ok_detail, rule)
 
+    def check_shape(self, cond: bool, f, node, construct, ok_detail="", bad_detail="", rule=None):
+        """A clause that recognises its construct by the arrangement of statements: when it does not find that arrangement
+        in a function that has been restructured since the rule was written, it cannot decide (see vk/skeleton.py)."""
+        if cond:
+            return self.ok(f, node, construct, ok_detail, rule)
+        self._shape += 1
+        try:
+            return self.violated(f, node, construct, bad_detail or ok_detail, rule)
+        finally:
+            self._shape -= 1
+
+    def violated_shape(self, f, node, construct, detail, rule=None):
+        self._shape += 1
+        try:
+            return self.violated(f, node, construct, detail, rule)
+        finally:
+            self._shape -= 1
+
     def floor(self, rule: str, n: int):
         self.rule_floor[rule] = n
 
